@@ -85,3 +85,39 @@ def run_traces(chk, exe, jobs, rankmax, nproc=12, timeout=3000, xmx='4g'):
             e['out'] = e['out'][:8] + ['...']
         chk.sample(e, limit=5)
     return ok, tot
+
+
+def replay_model_behaviours(chk, exe, num, nproc=4):
+    """spec -> impl: behaviours of MC_Codec (simulation mode, history printed) replayed on real decoders."""
+    rs = vlib.tlc_parallel([dict(module='MC_Codec', cfg='MC_Codec_sim.cfg', workers=1, xss='256m', timeout=3000, simulate='num=%d' % num,
+                                 depth=15, extra=['-seed', str(chk.seed + 31 * i)], tag='MC_Codec[simulate %d]' % i) for i in range(nproc)])
+    seen = set()
+    cases = []
+    for i, r in enumerate(rs):
+        if r.invariant or r.error:
+            vlib.expect_mc_ok(chk, r, 'MC_Codec_sim%d' % i)
+            continue
+        for l in r.out.splitlines():
+            if l.startswith('"{'):
+                d = json.loads(l)
+                if d not in seen:
+                    seen.add(d)
+                    cases.append(json.loads(d))
+    if not cases:
+        raise vlib.ToolError('MC_Codec simulation emitted no behaviours')
+    cin = vlib.workfile('%s_model_behaviours.ndjson' % chk.prop.lower())
+    cout = vlib.workfile('%s_model_results.ndjson' % chk.prop.lower())
+    vlib.write_ndjson(cin, cases)
+    rc, out = vlib.run_drv(exe, ['codec-replay', '--in', cin, '--out', cout])
+    if rc != 0:
+        raise vlib.ToolError('codec-replay failed: ' + out[-300:])
+    vlib.log('[replay] model behaviours: ' + out.strip().splitlines()[-1])
+    mism = vlib.read_ndjson(cout)
+    for m in mism[:4]:
+        steps = m['case']['steps']
+        key = 'codec-replay:' + ','.join('%s%s.%s' % (s.get('dec'), s.get('sbn', 'c'), s.get('esi', '')) for s in steps)[:120]
+        chk.violation(key, 'TLC-generated decoder behaviour not reproduced by the real decoder: ' + '; '.join(m['mismatch'])[:400],
+                      {'case': m['case'], 'mismatch': m['mismatch'], 'kind': 'spec->impl replay'})
+    chk.cov['traces_validated_against_impl'] += len(cases) - len(mism)
+    chk.cov['model_behaviours_replayed'] = len(cases)
+    return not mism
